@@ -89,7 +89,7 @@ def rule_skip_invalid(ctx: Ctx) -> None:
             # the masked value must be compared with 0 (== / !=), never used as a truth value of another constant
             ok = isinstance(par, ast.Compare) and len(par.ops) == 1 and isinstance(par.ops[0], (ast.Eq, ast.NotEq)) and isinstance(par.comparators[0], ast.Constant) and par.comparators[0].value == 0
             ctx.ob("C04.SKIP-INVALID", rel, t, f"{q}: {src(par)[:120] if par is not None else src(t)}", ok, detail="`mask & INVALID` must be compared with 0")
-    ctx.floor("C04.SKIP-INVALID", n, 10)
+    ctx.floor("C04.SKIP-INVALID", n, 7)
 
 
 class _Mirror(ast.NodeTransformer):
